@@ -60,15 +60,22 @@ PROPS = {
              "random programs from gen_prog (all constructors, depth 0-4, hints None/exact, adversarial strings, float specials), "
              "each through to_vec/to_string/to_writer (serc), PrettyFormatter::with_indent for indents '', ' ', tab, two spaces, 'ab' "
              "(serp), and a recording io::Write (serbufs: exact buffer list); ill-hinted programs through the recorder only "
-             "(serbufx: model comparison); Values through Display / {:#} / to_string / to_string_pretty (disp). A case is "
-             "non-trivial when the program contains a container, bytes or a string needing an escape (disp: array or object); "
-             "distinct = distinct case lines.",
+             "(serbufx: model comparison); Values through Display / {:#} / to_string / to_string_pretty (disp); Values through "
+             "write!(sink, \"{}\" / \"{:#}\", v) into a recording fmt::Write that accepts whole fragments within a byte budget "
+             "(dispf: result, the exact write_str fragment list, the to_string(_pretty) text; fixed values with every budget "
+             "0..len+1, random values unbounded and with a random / exact / one-short budget); Numbers through Display and "
+             "to_string (dispn). A case is "
+             "non-trivial when the program contains a container, bytes or a string needing an escape (disp, dispf: array or "
+             "object; dispn: never); distinct = distinct case lines.",
         trusted_base=[KERNEL, TIE,
                       "itoa and ryu are parameters (structure Ext) with recorded assumptions ExtOK: itoa prints plain decimal digits, "
                       "ryu prints finite floats as RFC 8259 numbers (the ryu text of every generated float is checked to be a number "
                       "by the executable specification on each run; that it is the shortest round-tripping decimal is not checked here)",
                       "serde's default SerializeMap::serialize_entry (= serialize_key; serialize_value), Vec<T>::serialize "
-                      "(serialize_seq(Some(len))), io::Write::write_all, fmt::Formatter adapter of Display: by documented semantics",
+                      "(serialize_seq(Some(len))), io::Write::write_all (std's default loop: no write call for an empty buffer, one per "
+                      "buffer when write returns the full length), fmt::Formatter::write_str forwarding to the underlying "
+                      "fmt::Write, Display for String (= pad = write_str when no width/precision is given): by documented semantics; "
+                      "a fmt::Write sink is its list of accepted fragments plus an arbitrary failure policy (Model.Display.Sink)",
                       "lean/SJ/Spec/Recognise.lean (independent recursive-descent recogniser used to check the implementation's bytes) "
                       "is proved sound against Grammar.JsonText (c03_recognise_sound); its completeness is not needed"],
         assumptions=["ExtOK: ext.itoa n = Spec.Number.decimal n; finite floats: Grammar.IsNumber (ext.ryu64 b) / (ext.ryu32 b)",
@@ -76,9 +83,11 @@ PROPS = {
                      "$serde_json::private::Number / RawValue tokens (feature-gated special cases, out of scope except Number's own impl)",
                      "collect_str's Display writes its text in one write_str call (buffer-level statements only)",
                      "c03_utf8: the program's strings are UTF-8 (SVal.utf8OK: every &str payload valid, every char a scalar value — what "
-                     "Rust's types guarantee) and the pretty indent string is valid UTF-8"],
-        partial=["c03_display_partial: Display/{:#} are the two serializers by definition in the model; the fmt adapter is covered by "
-                 "the correspondence op `disp` only"],
+                     "Rust's types guarantee) and the pretty indent string is valid UTF-8",
+                     "c03_display_utf8_safe: the Value satisfies the representation invariant Spec.WF.shapeOK (strings and keys "
+                     "valid UTF-8 - they are Rust Strings - and arbitrary_precision literals are numbers); c03_display_number: a "
+                     "Float held by a Number is finite (Number::from_f64)"],
+        partial=[],
         technique="Lean 4 theorems over all serializer programs: the transcription of Serializer/Compound/MapKeySerializer with both "
                   "Formatters (exact write_all buffer lists, State / current_indent / has_value bookkeeping) refines a structural "
                   "printer of the data-model image; the printer's output is derivable in the RFC 8259 grammar and denotes the image; "
@@ -91,13 +100,22 @@ PROPS = {
                    "per-string form c03_utf8_fragments) for every program whose strings are UTF-8 and either formatter (pretty: any "
                    "UTF-8 indent) every single buffer handed to the writer, and the whole output, is valid UTF-8 (Spec.Utf8.validUtf8): "
                    "formatter literals ASCII by evaluation of the extracted constants, itoa/ryu text ASCII because it is a number, "
-                   "string buffers cut only at ASCII bytes. The byte strings "
+                   "string buffers cut only at ASCII bytes. Display: the io::Write adapter over fmt::Formatter is modelled "
+                   "(Model.Display: write_all -> write -> from_utf8_unchecked -> write_str, error mapping io::Error <-> fmt::Error, "
+                   "the alternate flag) over a sink with an arbitrary failure policy; c03_display_adapter: Display::fmt of any "
+                   "Value feeds exactly the non-empty serializer buffers to the sink until one is rejected; c03_display: "
+                   "format!(\"{}\") / format!(\"{:#}\") are Ok with exactly the bytes of to_string / to_string_pretty (two-space "
+                   "indent) and Display::fmt is Ok on every non-failing sink; c03_display_fault: on a failing sink the result is "
+                   "fmt::Error (never Ok, never a panic), the accepted fragments are a prefix of the fault-free list and nothing "
+                   "is written after the failure (byte-budget sink: Err iff the text exceeds the budget); c03_display_utf8_safe: "
+                   "every buffer passed to str::from_utf8_unchecked is valid UTF-8 (the unsafe block's precondition, from c03_utf8); "
+                   "c03_display_number: Display for Number is one write_str of the serializer's number text in both "
+                   "representations. The byte strings "
                    "written by Formatter/PrettyFormatter are re-extracted from src/ser.rs on every run and the model is compared with "
                    "the real crate buffer by buffer on generated programs in four feature configurations, the crate's bytes being "
                    "re-parsed by an independent recogniser and compared with the image.",
         level_note="Trusted: Lean kernel + propext/Classical.choice/Quot.sound; extract.py; harness/driver comparison; itoa/ryu as "
-                   "assumed parameters; serde default methods by documented semantics. Partial: Display adapter (correspondence "
-                   "only).",
+                   "assumed parameters; serde default methods, std's write_all and fmt::Formatter forwarding by documented semantics.",
     ),
     "C17": dict(
         lean_targets=["SJ.Props.C17", "SJ.Audit.C17"],
